@@ -55,7 +55,14 @@ def check_restart_test(ctx):
                 tests.append(p_.test)
             p_ = getattr(p_, '_parent', None)
         cmp_ = None
+        flags = {a.targets[0].id: a.value for a in ast.walk(fi.node) if isinstance(a, ast.Assign) and len(a.targets) == 1 and isinstance(a.targets[0], ast.Name)
+                 and isinstance(a.value, (ast.Compare, ast.UnaryOp))
+                 and sum(1 for b in ast.walk(fi.node) if isinstance(b, ast.Name) and b.id == a.targets[0].id and isinstance(b.ctx, ast.Store)) == 1}
+        parts = []
         for t in tests:
+            parts.extend(t.values if isinstance(t, ast.BoolOp) and isinstance(t.op, ast.And) else [t])
+        parts = [flags.get(t.id, t) if isinstance(t, ast.Name) else t for t in parts]        # a test kept in a local (`worse = l > prev_l`)
+        for t in parts:
             neg = False
             while isinstance(t, ast.UnaryOp) and isinstance(t.op, ast.Not):
                 t, neg = t.operand, not neg
